@@ -41,7 +41,9 @@ def plan(tier, seed):
     # cold-start: switch at the first hit of the d-th distinct anchor location of the first user of each version
     # (about 125 distinct locations on this tree); thorough adds switches at later occurrences (j-th anchor event)
     D = measure_distinct_anchor_locations() + 6
-    specs += [{'kind': 'cold', 'part': p, 'ds': list(range(1 + p, D + 1, 14)), 'js': [], 'D': D} for p in range(14)]
+    # quick: every distinct location, each for 6 of the 12 versions (rotating); thorough: for all 12 versions
+    specs += [{'kind': 'cold', 'part': p, 'ds': list(range(1 + p, D + 1, 14)), 'js': [], 'D': D,
+               'versions_per_process': 6 if tier == 'quick' else 12} for p in range(14)]
     if tier == 'thorough':
         specs += [{'kind': 'cold', 'part': 14 + p, 'ds': [], 'js': list(range(1 + p, 3600, 16 * 9))} for p in range(16)]
     return specs
@@ -300,7 +302,7 @@ def run_cold(spec, rec):
             sp = os.path.join(work, 'spec.json')
             op = os.path.join(work, 'out.json')
             # rotate the version order so that every version is, in some process, the very first library loaded
-            order = vs[j % len(vs):] + vs[:j % len(vs)]
+            order = (vs[j % len(vs):] + vs[:j % len(vs)])[:spec.get('versions_per_process', len(vs))]
             json.dump({'versions': order, kind_: j}, open(sp, 'w'))
             if os.path.exists(op):
                 os.remove(op)
